@@ -6763,6 +6763,9 @@ void SoPlexBase<R>::resetSettings(const bool quiet, const bool init)
                                   init);
 
 #endif
+
+   // the random seed is part of the settings (saved and loaded as uint:random_seed)
+   setRandomSeed(SOPLEX_DEFAULT_RANDOM_SEED);
 }
 
 /// print non-default parameter values
